@@ -9,6 +9,7 @@ import (
 	"text/scanner"
 
 	"github.com/sboehler/knut/lib/common/cpr"
+	"github.com/sboehler/knut/lib/common/verif"
 	"github.com/sboehler/knut/lib/syntax/directives"
 	"github.com/sboehler/knut/lib/syntax/parser"
 	"github.com/sboehler/knut/lib/syntax/printer"
@@ -82,6 +83,7 @@ func ParseFileRecursively(file string) (<-chan directives.File, func(context.Con
 		wg, ctx := errgroup.WithContext(ctx)
 		wg.Go(func() error {
 			res, err := parseRec(ctx, wg, ch, file)
+			verif.Emit("FileDone", "path", file, "n", len(res.Directives), "failed", err != nil)
 			if err != nil {
 				return err
 			}
@@ -97,6 +99,7 @@ type Result struct {
 }
 
 func parseRec(ctx context.Context, wg *errgroup.Group, resCh chan<- directives.File, file string) (directives.File, error) {
+	verif.Emit("FileStart", "path", file)
 	text, err := os.ReadFile(file)
 	if err != nil {
 		return directives.File{}, err
@@ -110,6 +113,7 @@ func parseRec(ctx context.Context, wg *errgroup.Group, resCh chan<- directives.F
 			file := path.Join(filepath.Dir(file), inc.IncludePath.Content.Extract())
 			wg.Go(func() error {
 				res, err := parseRec(ctx, wg, resCh, file)
+				verif.Emit("FileDone", "path", file, "n", len(res.Directives), "failed", err != nil)
 				if err != nil {
 					return err
 				}
